@@ -21,7 +21,9 @@ Deps ==
          hd == SetOf(scn.hid)
          ar == {<<Ev.edges[i][1], Ev.edges[i][3]>> : i \in DOMAIN Ev.edges}
          drawn == Pairs(Ev.arrows)
-         textual == scn.view \in {"plain", "clustered"}
+         \* the arrows are read back from the diagram text in every view (endpoint-analysis view: an arrow between
+         \* endpoint states of two applications is an arrow between the applications)
+         textual == scn.view \in {"plain", "clustered", "epa"}
          bad == (IF SoundA(ar, cs, ex, hm, hd) THEN {} ELSE {"ArrowWithoutCallOrExcluded"})
                 \cup (IF CompleteA(ar, cs, ls, ex, hm, hd) THEN {} ELSE {"CallNotDrawn"})
                 \cup (IF textual /\ ~SoundA(drawn, cs, ex, hm, hd) THEN {"DrawnArrowWithoutCallOrExcluded"} ELSE {})
